@@ -72,6 +72,37 @@ def run(ctx, rep):
                     ok = True
         rep.check(ok, 'R-C07-3', '%s: inherited hash invalidated when clear_past_hash is not set' % fn, g.file, '', function=fn, construct='invalidate inherited')
 
+    # the loader's clearing of indeterminate hashes is effective: nothing rewrites block->hash after it in the same iteration
+    rep.rule('R-C07-3r', 'state_read_content: with clear_past_hash, every CHG/DELETED (and REP under --force-nocopy) hash is left INVALID: the invalidation is guarded by the flag and no later write of the same hash field follows it in the iteration', 3)
+    rc = P.fn('state_read_content')
+    rep.analysed(rc)
+    inv = list(rc.calls('hash_invalid_set'))
+    if len(inv) < 3:
+        raise AnalysisBroken('state_read_content: expected three hash invalidations, found %d' % len(inv))
+    from ..guards import guards_of
+    def hash_writers(f):
+        res = []
+        for c in f.calls():
+            if c.callee in ('sread', 'hash_zero_set', 'memcpy', 'memset', 'sgetbs') and c.ops:
+                e = f.expr(c.ops[1] if c.callee == 'sread' else c.ops[0])
+                if e.endswith('->hash') or e.endswith('->hash[0]') or '->hash' in e:
+                    res.append((c, e))
+        return res
+    W = hash_writers(rc)
+    if len(W) < 2:
+        raise AnalysisBroken('state_read_content: hash readers not found')
+    for hcall in inv:
+        g = dict(guards_of(rc, hcall))
+        guarded = g.get('state->clear_past_hash') is True
+        hd = rc.loop_of(hcall.block)
+        stop = {rc.blocks[hd][0].id} if hd is not None else set()
+        r = rc.reach([hcall], stop=stop)
+        tgt = rc.expr(hcall.ops[0])
+        later = [c for c, e in W if c.id in r and e == tgt]
+        rep.check(guarded and not later and hd is not None, 'R-C07-3r', 'hash_invalid_set(%s) at line %s is guarded by clear_past_hash and final for the iteration' % (tgt, hcall.line), hcall.loc(),
+                  'guarded by clear_past_hash: %s; later writes of the same field in the iteration: %s' % (guarded, ['%s at line %s' % (c.callee, c.line) for c in later]),
+                  function='state_read_content', construct='past hash cleared')
+
     h = P.fn('signal_handler')
     rep.analysed(h)
     calls = [c for c in h.calls()]
